@@ -1000,12 +1000,17 @@ def _parse(
             elif operator == "whitespace":
                 mode = suffix.strip()
                 # Validate the selected mode
-                filter_whitespace(mode, "")
+                if mode not in ("all", "single", "oneline"):
+                    reader.raise_parse_error("invalid whitespace mode %s" % mode)
                 reader.whitespace = mode
                 continue
             elif operator == "raw":
+                if not suffix:
+                    reader.raise_parse_error("raw missing expression")
                 block = _Expression(suffix, line, raw=True)
             elif operator == "module":
+                if not suffix:
+                    reader.raise_parse_error("module missing expression")
                 block = _Module(suffix, line)
             body.chunks.append(block)
             continue
